@@ -280,3 +280,51 @@ def family_bigcore(tier, seed, n=None):
                         {"op": "probe", "call": wcall([], "o1"), "paths": ["o1." + x for x in fs], "mode": "around", "nsol": 4, "cap": 200}]
                 out.append({"id": "F16/bigcore/%d/%s/dbg%d" % (k, where, dbg), "world": world, "ops": ops, "tags": []})
     return out
+
+
+def inject_failures(scs, tag="FI", every=1):
+    """a generic transformation (C16): before every method / with call (and exploration) of a scenario an UNSATISFIABLE call on
+    the same root is inserted (inline x < x on a scalar of the root).  The failed call must leave nothing behind: the rest of the
+    scenario is judged exactly as before."""
+    out = []
+    for sc in scs:
+        world = sc["world"]
+        pop = {e["id"]: e["cls"] for e in world["population"] if "cls" in e}
+
+        def scalar_of(cls):
+            while cls:
+                c = world["classes"][cls]
+                for f in c["fields"]:
+                    if f["kind"] == "scalar":
+                        return f["name"]
+                cls = c.get("base")
+            return None
+        ops, n, k = [], 0, 0
+        for op in sc["ops"]:
+            if op["op"] in ("call", "explore") and not op.get("fault") and op["call"]["kind"] in ("method", "with"):
+                root = op["call"]["roots"][0]
+                f = scalar_of(pop.get(root))
+                k += 1
+                if f and k % every == 0:
+                    bad = {"kind": "with", "roots": [root], "owner": root, "inline": [E(B("lt", F(f), F(f)))]}
+                    if n % 3 == 2:
+                        bad["flags"] = {"solve_fail_debug": 1}
+                    ops.append({"op": "call", "call": bad})
+                    n += 1
+            ops.append(op)
+        if n:
+            out.append(dict(sc, id="%s/%s" % (tag, sc["id"]), ops=ops))
+    return out
+
+
+def family_after_failure(tier, seed):
+    """scenarios of the other properties' families with a failing call inserted before every call"""
+    from . import fam_hist, fam_list, fam_inst, fam_tree, fam_dist, fam_soft
+    k = 3 if tier == "quick" else 24
+    pick = lambda scs, kk=k: scs[:kk] + scs[len(scs) // 2: len(scs) // 2 + kk]
+    src = (pick(fam_hist.family_H(tier, seed)) + pick(fam_list.family_randsz(tier, seed), 2 * k) + pick(fam_list.family_objlist(tier, seed))
+           + [s for s in fam_list.family_fixed(tier, seed) if any(x in s["id"] for x in ("/sum/", "/prod/", "/fe_tbl/", "/member/", "/fe_dyn/", "/uniq/", "/sum_arith/"))][:4 * k]
+           + pick(fam_list.family_uniqvec(tier, seed)) + pick(fam_inst.family_dyn(tier, seed)) + pick(fam_inst.family_dyn_member_foreach(tier, seed))
+           + pick(fam_tree.family_T(tier, seed, probes=True, tag="T16f")) + pick(fam_dist.family_starve(tier, seed), 2 * k)
+           + pick(fam_dist.family_order(tier, seed)) + pick(fam_dist.family_dist(tier, seed)) + pick(fam_soft.family_soft_struct(tier, seed), 2 * k))
+    return inject_failures(src)
